@@ -10,11 +10,12 @@
     four of the twelve in the quick tier).
  2. spec -> code: the same run dumps the state graph; every transition (= every (contents, call, arguments) of the instance) is put on a walk
     from the empty sequence; harness/qu.cpp replays every walk on Queue<int>, Queue<String> (owning, move = swap) and Queue<Tok> (owning,
-    copy-only, serial numbers make Sort's stability visible), each from 4 start configurations (nothing allocated / heap 4 / used inline buffer
-    / heap 8), under ASan+UBSan, comparing status, result, iterator output, the other queue and the FULL contents after every step, reading
+    copy-only, serial numbers make Sort's stability visible), each from 4 start configurations (nothing allocated / smallest heap array / used
+    inline buffer / larger heap array), under ASan+UBSan, comparing status, result, iterator output, the other queue and the FULL contents after every step, reading
     the contents through every public route, and (owning types) every slot of the internal array outside the window, which must hold the
     default item.
- 3. code -> spec: seeded random call sequences (ring episodes that put the head offset in every class of the capacities 3, 4, 8 before a
+ 3. code -> spec: seeded random call sequences (ring episodes that put the head offset in every class of the inline capacity and of the first
+    two heap capacities - MEASURED on the library as compiled: 3, 4, 8 with the default SMALL_QUEUE_SIZE and growth policy - before a
     multi-insert / growing reallocation / Normalize / ...; sizes up to ~22 so that Sort's merge step runs) are logged call by call and
     validated line by line by TLC against Deque.tla (DequeTrace.tla; a rejected log is cut to its execution and re-run with DiagSpec to
     show what the specification expected).  The ring positions met are measured and required (coverage guard).
@@ -317,6 +318,7 @@ def run(v, tier, seed):
             tot["tlc_wall"] += x["tlc_wall_s"]; tot["tlc_states"] += x["distinct"]
             pt = per_type.setdefault(x["typ"], {"calls": 0, "ring_tuples_max_per_shard": 0, "classes_missing": None})
             pt["calls"] += s["calls"]; pt["ring_tuples_max_per_shard"] = max(pt["ring_tuples_max_per_shard"], s["ring_tuples"])
+            pt["inline_capacity_as_compiled"] = s.get("inline_capacity"); pt["ring_capacities_measured"] = s.get("ring_capacities"); pt["ring_classes_wanted"] = s.get("ring_classes_wanted")
             ms = set(s["ring_classes_missing"]); pt["classes_missing"] = ms if pt["classes_missing"] is None else (pt["classes_missing"] & ms)
             for y in x["rows"]:
                 if y.get("summary"): continue
@@ -344,7 +346,7 @@ def run(v, tier, seed):
            "behaviours_replayed": rs.get("runs", 0), "behaviours_followed_to_the_end": rs.get("followed", 0), "behaviours_cut_short_by_known_finding": rs.get("cut_short", 0),
            "replay_steps_compared": rs.get("steps", 0), "replay_per_type": rs.get("per_type"), "known_QswapStale_hits_in_replay": rs.get("known", 0),
            "random_executions": tot["runs"], "random_executions_accepted_by_tlc": tot["accepted"], "random_calls": tot["calls"], "trace_lines_validated_by_tlc": tot["lines"],
-           "random_calls_on_wrapped_ring": tot["wrapped"], "random_per_type": per_type, "random_ring_classes": "all 135 (capacity 3/4/8 x head offset x 9 call groups) met for every item type",
+           "random_calls_on_wrapped_ring": tot["wrapped"], "random_per_type": per_type, "random_ring_classes": "every wanted class (capacity x head offset x 9 call groups; capacities measured on the library as compiled: inline buffer, EnsureSize(inline+1), growth from the full inline buffer) met for every item type: " + ", ".join("%s %s of capacities %s" % (t, pt.get("ring_classes_wanted"), pt.get("ring_capacities_measured")) for t, pt in sorted(per_type.items())),
            "directed_cases": {k: x for k, x in notes.items() if k.startswith("directed_")},
            "laws_shown_violable_in_this_run": sorted((w, l) for w, l in WRONG.items() if (not quick) or w in ("failchanges", "stale", "addhead", "indexofend")), "corrupted_trace_lines_rejected_by_tlc": notes.get("corrupted_trace_lines_rejected"),
            "evaluations": rs.get("steps", 0) + tot["calls"], "distinct_nontrivial": info["transitions"],
